@@ -26,14 +26,14 @@ DRAW_POLICIES = ["natural", "natural", "tails", "low", "mid", "high"]
 
 
 def make_spec(run_seed, tier, prop, choice_weights=None, forced_prob=0.0, branchy=True, safe_dist=False, archetype=None,
-              corpus_prob=0.08, family=None):
+              corpus_prob=0.08, family=None, allow_illposed=True):
     rnd = random.Random(run_seed)
     tags = set()
     if rnd.random() < corpus_prob:
         text = rnd.choice(archetypes.CORPUS)
         tags.add("corpus")
     else:
-        cfg = {"branchy": branchy, "safe_dist": safe_dist}
+        cfg = {"branchy": branchy, "safe_dist": safe_dist, "allow_illposed": allow_illposed}
         if family:
             cfg["family"] = family
         text, tags = archetypes.gen_molecule(rnd, cfg, archetype)
